@@ -215,7 +215,7 @@ def validate_traces(traces, name="TraceCheck"):
     out = r["out"]
 
     def grab(tag):
-        m = re.search(r'<<"%s", (\{.*?\})>>' % tag, out, re.S)
+        m = re.search(r'<<\s*"%s",\s*(\{.*?\})\s*>>' % tag, out, re.S)
         if not m:
             raise HarnessError("TLC trace validation produced no %s line:\n%s" % (tag, out[-1500:]))
         return m.group(1)
